@@ -41,7 +41,10 @@ for d in /verif/seeded/*/; do
     id=$(basename "$d"); [ -f "$d/patch.diff" ] || continue
     [ -n "$pat" ] && [[ "seeded-$id" != *$pat* ]] && continue
     prop=${id%%-*}
-    run_one "seeded-$id" "$prop" "$d/patch.diff"
+    pf="$d/patch.diff"
+    # a later fix commit may touch the same lines: use the hand-rebased patch if there is one
+    ls "$d"/patch-rebased-on-*.diff >/dev/null 2>&1 && pf=$(ls "$d"/patch-rebased-on-*.diff | tail -1)
+    run_one "seeded-$id" "$prop" "$pf"
     tail -1 "$res"
 done
 if [ -z "$pat" ]; then
